@@ -110,10 +110,7 @@ def evaluate__parenthesized_expression(self: XPathToken, context: ta.ContextType
 
             if any(x.symbol == '?' and not x for x in tokens):
                 func.check_arguments_number(len(tokens))
-                func = copy(func)
-                func._items = tokens  # a shallow copy shares the list of the original function
-                func.to_partial_function()
-                return func
+                return func.bind_partial_function(tokens, context)
 
             arguments: list[ta.ValueType] = [tk.evaluate(context) for tk in tokens]
 
